@@ -64,7 +64,7 @@ def configs(tier, seed):
         dw = rnd.choice([8, 16, 32, 64])
         gran = rnd.choice([g for g in (8, 16, 32, 64) if g <= dw])
         gbits = _log2(dw // gran)
-        aw = rnd.randint(2, 6 if tier == "quick" else 8)
+        aw = rnd.randint(2, 6 if tier == "quick" else 8) if tries % 25 else rnd.choice([12, 20, 30])
         feat = [f for f in FEATS if rnd.random() < 0.5]
         cfg = {"aw": aw, "dw": dw, "gran": gran, "feat": feat, "align": rnd.choice([0, 0, 0, 1, 2, 3]), "subs": []}
         for i in range(rnd.randint(0 if rnd.random() < 0.05 else 1, 3 if tier == "quick" else 4)):
